@@ -91,6 +91,7 @@ pub fn check_script(s: &Script, st: &mut Stats) -> PResult {
     st.label_if(s.skip_end, "freed_without_end");
     st.label_if(c.log.iter().any(|l| l.starts_with("stream.")), "streaming_handler_ran");
     st.label_if(s.poll_errors, "last_error_polled_and_cross_thread_checked");
+    st.label_if(s.defer_errors, "errors_left_untaken_then_replaced");
     if s.distinct_entry_points() >= 3 && (non_lifo || errors) {
         if st.nontrivial(fnv(format!("{}", s.to_json()).as_bytes())) {
             st.sample(|| json!({"script": s.to_json(), "calls": c.calls, "log_entries": c.log.len()}));
@@ -104,7 +105,7 @@ impl Prop for C17 {
         "C17"
     }
     fn rule(&self) -> String {
-        "case = mirrored handler script (0-3 selector handler sets and 0-2 document handler sets over every element/comment/text/doctype/document-end accessor and mutator of lol_html.h incl. attribute iterators, user data, end-tag handlers, streaming handlers writing via write_str / write_utf8_chunk; arguments incl. invalid UTF-8, bad selectors, bad / non-ASCII-compatible encodings, Stop directives, failing streaming callbacks, tiny memory limits) x input x schedule x call order permitted by the header (builder freed before the rewriter is used, selectors freed right after, strings freed late, rewriter freed without end, take_last_error polled at random points and checked from a second thread). The script is interpreted once through the extern \"C\" declarations written from lol_html.h and once through the Rust API: sink bytes, every accessor value, every return code and every error text must be identical; each -1/NULL must leave a non-empty thread-local last error, no stale error may be pending after success, every streaming handler's drop_callback must run exactly once. The child process runs under AddressSanitizer+LeakSanitizer when the nightly ASan build is available; an abort, sanitizer report or leak is attributed to the journaled case. non-trivial = >= 3 distinct entry points and (non-LIFO free order or an error path)".into()
+        "case = mirrored handler script (0-3 selector handler sets and 0-2 document handler sets over every element/comment/text/doctype/document-end accessor and mutator of lol_html.h incl. attribute iterators, user data, end-tag handlers, streaming handlers writing via write_str / write_utf8_chunk; arguments incl. invalid UTF-8, bad selectors, bad / non-ASCII-compatible encodings, Stop directives, failing streaming callbacks, tiny memory limits) x input x schedule x call order permitted by the header (builder freed before the rewriter is used, selectors freed right after, strings freed late, rewriter freed without end, take_last_error polled at random points and checked from a second thread and from a thread created after another one exited with an untaken error; in a quarter of the cases some failures are not fetched at all and the next failure's message must replace the pending one). The script is interpreted once through the extern \"C\" declarations written from lol_html.h and once through the Rust API: sink bytes, every accessor value, every return code and every error text must be identical; each -1/NULL must leave a non-empty thread-local last error, no stale error may be pending after success, every streaming handler's drop_callback must run exactly once. The child process runs under AddressSanitizer+LeakSanitizer when the nightly ASan build is available; an abort, sanitizer report or leak is attributed to the journaled case. non-trivial = >= 3 distinct entry points and (non-LIFO free order or an error path)".into()
     }
     fn assumptions(&self) -> Vec<String> {
         vec!["histories the header forbids (use after end, use after a failing write, NULL handles) are not generated".into(), "wrapper-specific error texts (unknown encoding, 'No end tag.') are compared for presence only; library error texts are compared verbatim".into()]
